@@ -53,27 +53,27 @@ theorem fact_v1_encrypt_before_write :
 
 /-! ## confinement -/
 
-/-- **Confinement.** For an absolute keystore root, whatever key path the directory back end is
-given (any bytes: `..`, `/`, `\`, empty and dot components), `osPath` either rejects it or returns a
-cleaned absolute OS path whose components are the root's components followed by ordinary components
-only (no `..`, no `.`, no empty component, no separator inside) – lexically inside the root. -/
-theorem osPath_contained (root p q : Bytes) (hroot : root.head? = some slash)
-    (h : osPath root p = .ok q) :
+/-- **Join-and-check containment.** For an absolute root and any relative path `p` (any bytes),
+`containedJoin` either refuses `p` or returns a cleaned absolute path whose components are the root's
+components followed by ordinary components only – lexically inside the root. This is the check shared
+by the v2 directory back end (`osPath`) and the v1 bundle import (`isInsideFolder`). -/
+theorem containedJoin_contained (root p q : Bytes) (hroot : root.head? = some slash)
+    (h : containedJoin root p = .ok q) :
     ∃ rest, q = render ⟨true, (cleanP root).comps ++ rest⟩ ∧ ∀ c ∈ rest, GoodComp c := by
-  unfold osPath at h
+  unfold containedJoin at h
   have hne : root ≠ [] := by intro e; simp [e] at hroot
-  have hj : joinP root (replaceSeps p) = some (cleanP (root ++ slash :: replaceSeps p)) := by
+  have hj : joinP root (p) = some (cleanP (root ++ slash :: p)) := by
     simp [joinP, hne]
   rw [hj] at h
   simp only at h
   -- the joined path is rooted, its stack extends the root's stack
-  have hrooted : (root ++ slash :: replaceSeps p).head? = some slash := by
+  have hrooted : (root ++ slash :: p).head? = some slash := by
     cases root with
     | nil => exact absurd rfl hne
     | cons x r => simpa using hroot
   let S0 := cleanStack true [] (splitSlash root)
-  let S1 := cleanStack true S0 (splitSlash (replaceSeps p))
-  have hfull : cleanP (root ++ slash :: replaceSeps p) = ⟨true, S1.reverse⟩ := by
+  let S1 := cleanStack true S0 (splitSlash (p))
+  have hfull : cleanP (root ++ slash :: p) = ⟨true, S1.reverse⟩ := by
     simp only [cleanP, hrooted, splitSlash_append, cleanStack_append]
     simp [S1, S0]
   have hbase : cleanP root = ⟨true, S0.reverse⟩ := by
@@ -126,6 +126,44 @@ theorem osPath_contained (root p q : Bytes) (hroot : root.head? = some slash)
             · intro c hc
               have : c ∈ S1.reverse := by rw [hp]; simp [hc]
               exact hgood1 c (by simpa using this)
+
+
+/-- **Confinement.** For an absolute keystore root, whatever key path the directory back end is
+given (any bytes: `..`, `/`, `\`, empty and dot components), `osPath` either rejects it or returns a
+cleaned absolute OS path whose components are the root's components followed by ordinary components
+only (no `..`, no `.`, no empty component, no separator inside) – lexically inside the root. -/
+theorem osPath_contained (root p q : Bytes) (hroot : root.head? = some slash)
+    (h : osPath root p = .ok q) :
+    ∃ rest, q = render ⟨true, (cleanP root).comps ++ rest⟩ ∧ ∀ c ∈ rest, GoodComp c :=
+  containedJoin_contained root (replaceSeps p) q hroot h
+
+/-- **Confinement of the v1 bundle import.** Whatever name a key carries inside an export bundle
+(`KeyBackuper.Import` takes the names from the bundle, and a bundle is sealed under keys that travel
+with it), the key is either refused – and the whole bundle with it, before anything is written – or
+written to a cleaned path made of the key folder's components followed by ordinary components. -/
+theorem v1_import_contained (root name q : Bytes) (hroot : root.head? = some slash)
+    (h : importPath root name = .ok q) :
+    ∃ rest, q = render ⟨true, (cleanP root).comps ++ rest⟩ ∧ ∀ c ∈ rest, GoodComp c :=
+  containedJoin_contained root name q hroot h
+
+open Generated.V1Methods in
+/-- `KeyBackuper.Import` checks every key name of the bundle against both key folders
+(`isInsideFolder` – `filepath.Rel` of the joined path must not start with `..`, the check `containedJoin`
+models) before the first storage call. -/
+theorem fact_v1_import_checks_names :
+    v1ImportCalls.take 3 = ["isInsideFolder", "isInsideFolder", "store.storage.MkdirAll"] ∧
+    (v1ImportCalls.drop 2).all (· != "isInsideFolder") = true ∧
+    v1IsInsideFolderBody = ["relPath, err := filepath.Rel(folder, filepath.Join(folder, name))", "return err == nil && relPath != \"..\" && !strings.HasPrefix(relPath, \"..\"+string(filepath.Separator))"] := by
+  refine ⟨by decide, by decide, by decide⟩
+
+/-- **The pinned import escaped** (repair 52): a bundle whose key is named `../escaped.pub` was written
+next to the key folder (and a public key is written as it comes – attacker-chosen bytes at an
+attacker-chosen place); the repaired import refuses the bundle. -/
+theorem v1_import_pinned_counterexample :
+    importPathPinned (ofStr "/tmp/ks/root") (ofStr "../escaped.pub") = ofStr "/tmp/ks/escaped.pub" ∧
+    importPath (ofStr "/tmp/ks/root") (ofStr "../escaped.pub") = .err ∧
+    importPath (ofStr "/tmp/ks/root") (ofStr "client_a_storage.pub") = .ok (ofStr "/tmp/ks/root/client_a_storage.pub") := by
+  refine ⟨by decide, by decide, by decide⟩
 
 /-- **The pinned tree escapes** (DESIGN §8 #5): on the code as pinned, `osPath` accepts `../escaped`
 and maps it to a sibling of the keystore root. Witness replayed against the real back end by the
